@@ -324,3 +324,45 @@ def leaf_values(fn, op, depth=32):
         return [("other", op)]
     go(op[1][0], list(op[1][1]), depth)
     return out
+
+
+def consistent_def_blocks(fn, prog, bb):
+    """Blocks that, beyond the dominators of `bb`, every execution reaching `bb` must have passed: when a dominating
+    branch fact says a re-assigned local (e.g. the result of a spliced-in helper with several returns) holds variant V,
+    only the definitions that build V are feasible; if there is exactly one such definition, its block was passed."""
+    out = []
+    want = {"Continue": ("Ok", "Some"), "Ok": ("Ok",), "Some": ("Some",), "Ready": ("Ready",)}
+    for fa in guards.facts_at(fn, prog, bb):
+        st = getattr(fa, "steps", None)
+        if fa.kind != "variant" or not fa.allowed or len(fa.allowed) != 1 or not st:
+            continue
+        (v,) = tuple(fa.allowed)
+        if v not in want:
+            continue
+        last = st[-1]
+        op = None
+        if last[0] == "call" and re.search(r"Try>::branch$", last[1].callee or "") and last[1].args:
+            op = last[1].args[0]
+        elif last[0] == "multi":
+            op = ["c", [last[1], []]]
+        if op is None or op[0] not in ("c", "m") or op[1][1]:
+            continue
+        # follow plain copies to the re-assigned local
+        local = op[1][0]
+        for _ in range(6):
+            sd = fn.single_def(local)
+            if sd is None:
+                break
+            if sd[2] == "assign" and not sd[3]["p"][1] and sd[3]["r"][0] == "use" and sd[3]["r"][1][0] in ("c", "m") and not sd[3]["r"][1][1][1]:
+                local = sd[3]["r"][1][1][0]
+                continue
+            break
+        defs = [d for d in fn.defs().get(local, []) if not fn.is_cleanup(d[0])]
+        if len(defs) < 2:
+            continue
+        good = [d for d in defs if d[2] == "assign" and not d[3]["p"][1] and d[3]["r"][0] == "agg" and d[3]["r"][1].get("variant") in want[v]]
+        other = [d for d in defs if d not in good and not (d[2] == "assign" and not d[3]["p"][1] and d[3]["r"][0] == "agg" and d[3]["r"][1].get("k") == "adt")
+                 and not (d[2] == "call" and re.search(RESIDUAL, d[3].get("callee") or ""))]
+        if len(good) == 1 and not other:
+            out.append(good[0][0])
+    return out
